@@ -278,7 +278,7 @@ func constResults(p *core.Prog, e ast.Expr) ([]int64, bool) {
 	}
 	var vals []int64
 	ok = true
-	ast.Inspect(fi.Decl.Body, func(n ast.Node) bool {
+	inspectFn(fi, func(n ast.Node) bool {
 		if rs, isR := n.(*ast.ReturnStmt); isR {
 			if len(rs.Results) != 1 {
 				ok = false
@@ -328,7 +328,7 @@ func checkNonBlocking(c *Ctx) {
 	entry := c.MustFunc("Memberlist.ingestPacket")
 	n := 0
 	for fn := range c.G.SyncReach(entry) {
-		ast.Inspect(fn.Decl.Body, func(nd ast.Node) bool {
+		inspectFn(fn, func(nd ast.Node) bool {
 			if gs, ok := nd.(*ast.GoStmt); ok {
 				_ = gs
 				return false // runs on its own goroutine
